@@ -8,13 +8,16 @@
    only by the shape facts regenerated from the Go AST (Gen/SchedShape.v) and by the race detector
    in the differential run; it is not proved. *)
 From Coq Require Import String List Arith Bool Permutation.
-From Falco Require Import Model.Sched Gen.SchedShape Proofs.SchedProofs Proofs.SchedSerial Proofs.SchedPlugins Proofs.SchedShapeFacts.
+From Falco Require Import Base.Res Base.SMBase Model.SM.
+From Falco Require Import Gen.SchedShape Proofs.SchedProofs Proofs.SchedSerial Proofs.SchedPlugins Proofs.SchedCollect
+  Proofs.SchedRequests Proofs.SchedShapeFacts.
+From Falco Require Import Model.Sched.
 Import ListNotations.
 
 (* any number of requests, any bodies (sequences of atomic accesses to the shared state and of
    response computations), any lock-respecting schedule: final state and every response equal those
    of the one-at-a-time schedule in lock-acquisition order, which is itself lock-respecting *)
-Theorem C18_locked_serialisable_partial :
+Theorem C18_locked_serialisable :
   forall (S R : Type) (bodies : list (list (step S R))) (s0 : S) sched c,
   Forall (fun b => forallb is_body_step b = true) bodies ->
   respects_lock (map handler bodies) s0 sched c ->
@@ -23,6 +26,21 @@ Theorem C18_locked_serialisable_partial :
     respects_lock (map handler bodies) s0 (sequential (map handler bodies) perm) c' /\
     st c = st c' /\ forall i, i < length bodies -> resp c i = resp c' i.
 Proof. exact locked_serialisable_sched. Qed.
+
+(* THE FULL OUTCOME over the simulator's own state (C06's Model/SM.v): n requests (any oracles = any programs,
+   any environments), each served by a handler `Acquire; request; Release` on the persistent state (cache, rate
+   counter, penalty box).  For every lock-respecting interleaving: the persistent state left behind and the
+   process report of every request are those of run_history on the requests in lock-acquisition order.
+   (The remaining clause of the property, "no data race occurs", is about the Go memory model and is NOT a
+   statement of this model: see the header.) *)
+Theorem C18_requests_serialisable :
+  forall (reqs : list (oracle * request)) (p0 : persistent) sched c,
+  respects_lock (map handler (map request_body reqs)) p0 sched c ->
+  Permutation (acq c) (seq 0 (length reqs)) /\
+  exists rs, run_history (map (fun i => nth i reqs req0) (acq c)) p0 = OK (rs, st c) /\
+             length rs = length reqs /\
+             forall k i, nth_error (acq c) k = Some i -> resp c i = nth_error rs k.
+Proof. exact requests_serialisable. Qed.
 
 (* the same against the functional one-at-a-time reference (what the differential run computes) *)
 Theorem C18_locked_serialisable_ref :
@@ -43,7 +61,20 @@ Theorem C18_append_locked_complete :
   forall d, In d ds -> In d (fst (st c)).
 Proof. exact append_locked_complete. Qed.
 
-(* custom_linter.go literally: plugin goroutine k reports the LIST nth k dss of diagnostics, one call of
+(* custom_linter.go as it collects now: goroutine idx fills results[idx] only, the slots are reported in
+   annotation order after the join.  A plugin answers with its diagnostics or fails (not found, non-zero exit,
+   timeout, unreadable answer = ONE failure diagnostic in its place).  Any number of plugins, any outcomes, any
+   interleaving: what is reported is exactly flat_map diags outcomes - the diagnostics of the plugins that
+   answered plus one failure per plugin that did not, in annotation order. *)
+Theorem C18_plugins_collected_in_order :
+  forall (D : Type) (os : list (outcome D)) sched c,
+  exec sched (init (collect_threads D os) (slots0 D)) = Some c -> finished (length os) c ->
+  collected D (length os) (st c) = flat_map (diags D) os.
+Proof. exact plugins_collected_in_order. Qed.
+
+(* the earlier design (every goroutine calls the locked Linter.Error itself), kept: completeness holds there
+   too, the ORDER does not (it is the lock-acquisition order) *)
+(* custom_linter.go before bba4c2f: plugin goroutine k reports the LIST nth k dss of diagnostics, one call of
    Linter.Error (Acquire; read; append-write; Release) per diagnostic, in program order; any number of
    plugins, any lists, every lock-respecting interleaving: every diagnostic of every plugin is in the
    final list.  Without the mutex (two plugins, two diagnostics each) one is lost. *)
@@ -71,11 +102,15 @@ Theorem C18_shape_facts :
   servehttp_lock_then_defer_unlock = true /\ servehttp_state_before_lock = [] /\
   servehttp_unlock_only_deferred = true /\ servehttp_no_go_stmt = true /\
   interpreter_lock_used_outside_servehttp = [] /\
-  linter_error_locks_first = true /\ linter_errors_appended_outside_error = [].
+  linter_error_locks_first = true /\ linter_errors_appended_outside_error = [] /\
+  customlint_goroutines_call_error = false /\
+  globals_written_after_init = ["interpreter/variable:injectedVariable@Inject"%string].
 Proof. exact shape_facts. Qed.
 
-Print Assumptions C18_locked_serialisable_partial.
+Print Assumptions C18_locked_serialisable.
+Print Assumptions C18_requests_serialisable.
 Print Assumptions C18_locked_serialisable_ref.
+Print Assumptions C18_plugins_collected_in_order.
 Print Assumptions C18_append_locked_complete.
 Print Assumptions C18_append_locked_complete_goroutines.
 Print Assumptions C18_append_unlocked_goroutines_refuted.
